@@ -7,3 +7,4 @@ the schedule-free characterisation of the executed set on the concrete model's p
 import LLBuild.Props.C01Gen
 import LLBuild.Props.EngineImplSound
 import LLBuild.Props.EngineImplSched2
+import LLBuild.Props.EngineImplSched3
